@@ -170,19 +170,24 @@ def gen_chain(rng, prof, force_selflock=None):
 def chain_numbers(spec):
     """reference numbers of a chain: ratios, efficiencies, J_eq at the output, G, E, self-locking"""
     rs, es, lock = [], [], False
+    near = False
     prev = spec['motor']
     for e in spec['chain']:
         r, eta, sl = REL.relation_values(prev, e)
         rs.append(r)
         es.append(eta)
         lock = lock or sl
+        if e['rel']['type'] == 'worm':
+            wg = prev if prev['type'] == 'wormgear' else e
+            m, _ = REL.self_locking_margin(qsi(wg['pa']), qsi(wg['helix']), e['rel']['f'])
+            near = near or abs(m) <= 1e-12
         prev = e
     J = qsi(spec['motor']['J'])
     for e, r in zip(spec['chain'], rs):
         J = J * r + qsi(e['J'])
     G = math.prod(rs)
     E = math.prod(r * eta for r, eta in zip(rs, es))
-    return {'r': rs, 'eta': es, 'J_eq': J, 'G': G, 'E': E, 'self_locking': lock}
+    return {'r': rs, 'eta': es, 'J_eq': J, 'G': G, 'E': E, 'self_locking': lock, 'self_locking_near_threshold': near}
 
 
 def gen_scenario(rng, prof=None, force_selflock=None):
